@@ -5,3 +5,4 @@ import PegVerif.Fields
 import PegVerif.Value
 import PegVerif.Literal
 import PegVerif.Eval
+import PegVerif.Spec
